@@ -72,7 +72,7 @@ def _classify(res, ob):
             # Kani accepts any panic; we demand exactly the expected one
             msgs = [c["description"] for c in out["failed_checks"]]
             exp = ob.get("panic_msg")
-            if exp and not any(exp in (m or "") for m in msgs):
+            if exp and not (msgs and all(exp in (m or "") for m in msgs)):
                 out["verdict"] = "violation"
                 out["reason"] = "should_panic harness panicked with %r, expected message containing %r" % (msgs, exp)
                 return out
